@@ -372,8 +372,8 @@ def derivedFn (env : Env) (self : Bool) (l : List Ref) (name : Bytes) : Except E
   | .notFound => throw .valid
   | .nullMod => if env.q.nullModCrash then throw .nullMod else throw .valid
 
-/-- `deref(ns)` (RFC 7950 §10.3.1) on a leafref: `xpath_deref` + `lyplg_type_resolve_leafref`.  instance-identifier values are not
-modelled (the first node then yields the empty set here). -/
+/-- `deref(ns)` (RFC 7950 §10.3.1) on a leafref: `xpath_deref` + `lyplg_type_resolve_leafref`.  instance-identifier terminals are
+handled by `derefAny` below (`Env.instTarget`); this function alone yields the empty set for them. -/
 def derefFn (env : Env) (l : List Ref) : Except Err (Value N) :=
   match l with
   | [] => pure (.ns [])
